@@ -114,7 +114,6 @@ func c06Groups(tier string, seed int64, idx int, scratch string) rt.CaseResult {
 	rounds := tierN(tier, 120, 400)
 	var stop int32
 	var commits, overl int64
-	var commitOpen int64 // 1 while a Commit call is in progress
 	var vmu sync.Mutex
 	judge := func(kind string, keys []string, err error, sawCommit bool) {
 		vmu.Lock()
@@ -160,7 +159,6 @@ func c06Groups(tier string, seed int64, idx int, scratch string) rt.CaseResult {
 		for atomic.LoadInt32(&stop) == 0 {
 			rt.Beat()
 			before := atomic.LoadInt64(&commits)
-			during := atomic.LoadInt64(&commitOpen) == 1
 			var keys []string
 			var err error
 			switch kind {
@@ -176,7 +174,8 @@ func c06Groups(tier string, seed int64, idx int, scratch string) rt.CaseResult {
 					tx.Rollback(ctxBg)
 				}
 			}
-			during = during || atomic.LoadInt64(&commitOpen) == 1 || atomic.LoadInt64(&commits) != before
+			// a Commit returned while this read was running
+			during := atomic.LoadInt64(&commits) != before
 			judge(kind, keys, err, during)
 		}
 	}
@@ -186,14 +185,12 @@ func c06Groups(tier string, seed int64, idx int, scratch string) rt.CaseResult {
 	}
 	for r := 1; r <= rounds; r++ {
 		rt.Beat()
-		atomic.StoreInt64(&commitOpen, 1)
 		var err error
 		if r%2 == 1 {
 			err = flip(gb, ga, r)
 		} else {
 			err = flip(ga, gb, r)
 		}
-		atomic.StoreInt64(&commitOpen, 0)
 		atomic.AddInt64(&commits, 1)
 		if err != nil {
 			vmu.Lock()
